@@ -1,5 +1,7 @@
 import Ecal.Lemmas.ExprFuel
 import Ecal.Lemmas.C03Aux
+import Ecal.Lemmas.C03NumberBlock
+import Ecal.Lemmas.C03FirstNumber
 import Ecal.Lemmas.ExprTotal
 import Ecal.Lemmas.ExprSound
 import Ecal.Gen.C03
@@ -808,14 +810,133 @@ example : Ecal.Lex.numberCandidate (Ecal.Lex.str "1.2.3") = false ∧ Ecal.Lex.n
     Ecal.Lex.numberCandidate (Ecal.Lex.str "1e") = false ∧ Ecal.Lex.numberCandidate (Ecal.Lex.str "e5") = false ∧
     Ecal.Lex.numberCandidate [] = false ∧ Ecal.Lex.numberCandidate (Ecal.Lex.str "1.5") = true := by decide +kernel
 
+/-! ### where a number literal ends (the block grammar of `lexNumberBlock`)
+
+`Ecal.Lex.blockLen s` is the length of the longest prefix of `s` of the form
+(digit | `.` | `e` `+` digit)* — an `e` belongs to the block only when `+` and a digit follow.
+`Ecal.Lex.rem l` is the input from the lexer's position on. The statements are for input that is
+ASCII from that position on (the loop of the model decodes runes; number literals are ASCII). -/
+
+/-- C03 (number literals: where the block ends): `lexNumberBlock` advances by exactly the longest
+    prefix of the remaining input that the block grammar (digit | `.` | `e+`digit)* accepts —
+    in every lexer state, for every ASCII remainder. -/
+theorem number_block_is_longest_prefix (l : Ecal.Lex.L) (hasc : ∀ x ∈ Ecal.Lex.rem l, x < 128) :
+    (Ecal.Lex.lexNumberBlock l).pos = l.pos + Ecal.Lex.blockLen (Ecal.Lex.rem l) :=
+  Ecal.Lex.numberBlock_ascii l hasc
+
+/-- C03 (number literals: the token): started at the first byte of a word (`start = pos`, as
+    `lexToken` does) whose block passes the number test, `lexWord` pushes exactly one token, the
+    NUMBER whose text is that block (lower-cased) — nothing shorter, nothing longer. -/
+theorem number_token_text_is_block (l : Ecal.Lex.L) (hs : l.start = l.pos) (hasc : ∀ x ∈ Ecal.Lex.rem l, x < 128)
+    (hcand : Ecal.Lex.numberCandidate (Ecal.Lex.lowerGo ((Ecal.Lex.rem l).take (Ecal.Lex.blockLen (Ecal.Lex.rem l)))) = true) :
+    (Ecal.Lex.lexWord l).1.toks =
+      l.toks.push (Ecal.Lex.Tok.mk Ecal.Lex.tNUMBER l.start
+        (Ecal.Lex.lowerGo ((Ecal.Lex.rem l).take (Ecal.Lex.blockLen (Ecal.Lex.rem l)))) false false
+        l.skippedNl l.stamp.1 l.stamp.2) :=
+  Ecal.Lex.lexWord_number l hs hasc hcand
+
+/-- C03 (known finding `number-exponent-split`, formal statement): when the remaining input is
+    `<digits>e<x>…` with `x` not `+` — `1e5`, `2e-1`, `1.5e-3` after the dot part — `lexWord` pushes
+    the NUMBER `<digits>` only and stops in front of the `e`: the exponent the language reference
+    allows ("all common notations") is split off and lexed as an identifier next. The same holds
+    for an upper-case `E` whatever follows (`1E+5`). -/
+theorem exponent_is_split (l : Ecal.Lex.L) (ds : List Nat) (x : Nat) (rest : List Nat)
+    (hs : l.start = l.pos) (hds : Ecal.Lex.allDig ds)
+    (hrem : Ecal.Lex.rem l = ds ++ 101 :: x :: rest ∧ x ≠ 43 ∨ Ecal.Lex.rem l = ds ++ 69 :: x :: rest)
+    (hasc : ∀ y ∈ Ecal.Lex.rem l, y < 128) (hcand : Ecal.Lex.numberCandidate (Ecal.Lex.lowerGo ds) = true) :
+    (Ecal.Lex.lexWord l).1.toks =
+      l.toks.push (Ecal.Lex.Tok.mk Ecal.Lex.tNUMBER l.start (Ecal.Lex.lowerGo ds) false false
+        l.skippedNl l.stamp.1 l.stamp.2) ∧
+    (Ecal.Lex.lexNumberBlock l).pos = l.pos + ds.length := by
+  have hb : Ecal.Lex.blockLen (Ecal.Lex.rem l) = ds.length := by
+    rcases hrem with ⟨h, hx⟩ | h
+    · rw [h]; exact Ecal.Lex.blockLen_exponent_without_plus ds hds x rest hx
+    · rw [h]; exact Ecal.Lex.blockLen_upper_exponent ds hds (x :: rest)
+  have ht : (Ecal.Lex.rem l).take (Ecal.Lex.blockLen (Ecal.Lex.rem l)) = ds := by
+    rw [hb]
+    rcases hrem with ⟨h, _⟩ | h <;> rw [h] <;> simp
+  constructor
+  · have := Ecal.Lex.lexWord_number l hs hasc (by rw [ht]; exact hcand)
+    rw [ht] at this
+    exact this
+  · rw [Ecal.Lex.numberBlock_ascii l hasc, hb]
+
+/-- C03 (the documented exponent form is kept): `<digits>e+<digit>…` belongs to the block as a whole
+    (`1.234560e+02`). -/
+theorem exponent_plus_is_kept (l : Ecal.Lex.L) (ds : List Nat) (d : Nat) (rest : List Nat) (hds : Ecal.Lex.allDig ds)
+    (hd : Ecal.Lex.isDig d = true) (hrem : Ecal.Lex.rem l = ds ++ 101 :: 43 :: d :: rest) (hasc : ∀ y ∈ Ecal.Lex.rem l, y < 128) :
+    (Ecal.Lex.lexNumberBlock l).pos = l.pos + (ds.length + 3 + Ecal.Lex.blockLen rest) := by
+  rw [Ecal.Lex.numberBlock_ascii l hasc, hrem, Ecal.Lex.blockLen_exponent_plus ds hds d hd rest]
+
+/-- C03 (`1 -2`): a blank, an operator, a bracket — any byte that is neither a digit, a dot nor `e` —
+    ends the block: `1 -2` is the number `1`, then other tokens. -/
+theorem other_character_ends_number (l : Ecal.Lex.L) (ds : List Nat) (c : Nat) (rest : List Nat) (hds : Ecal.Lex.allDig ds)
+    (hc : (Ecal.Lex.isDig c || c == 46) = false) (he : c ≠ 101) (hrem : Ecal.Lex.rem l = ds ++ c :: rest)
+    (hasc : ∀ y ∈ Ecal.Lex.rem l, y < 128) :
+    (Ecal.Lex.lexNumberBlock l).pos = l.pos + ds.length := by
+  rw [Ecal.Lex.numberBlock_ascii l hasc, hrem, Ecal.Lex.blockLen_digits_then_other ds hds c rest hc he]
+
+/-- C03 (number literals, complete lexer run): for every ASCII source that starts with a digit, the
+    FIRST token of the complete token list `Ecal.Lex.lex` yields (the list the driver parses) is the
+    NUMBER at offset 0, line 1, column 1 whose text is the longest prefix of the source of the form
+    (digit | `.` | `e+`digit)* — provided that prefix passes the number test — whatever follows. -/
+theorem first_number_token_of_source (input : List Nat) (d : Nat) (tl : List Nat) (hin : input = d :: tl)
+    (hd : Ecal.Lex.isDig d = true) (hasc : ∀ x ∈ input, x < 128)
+    (hcand : Ecal.Lex.numberCandidate (Ecal.Lex.lowerGo (input.take (Ecal.Lex.blockLen input))) = true) :
+    (Ecal.Lex.lex input).toList.head? =
+      some (Ecal.Lex.Tok.mk Ecal.Lex.tNUMBER 0 (Ecal.Lex.lowerGo (input.take (Ecal.Lex.blockLen input))) false false 0 1 1) :=
+  Ecal.Lex.lex_first_number input d tl hin hd hasc hcand
+
+/-- C03 (known finding `number-exponent-split`, complete lexer run): a source `<digits>e<x>…` with `x`
+    not `+` (`1e5`, `2e-1 …`), or `<digits>E…` (`1E+5`), lexes to a token list whose first token is the
+    NUMBER `<digits>` — never a NUMBER containing the exponent. (What follows, `e5` as an identifier,
+    is shown by the `decide` instances below.) -/
+theorem source_exponent_is_split (d : Nat) (ds : List Nat) (x : Nat) (rest : List Nat) (input : List Nat)
+    (hds : Ecal.Lex.allDig (d :: ds))
+    (hin : input = (d :: ds) ++ 101 :: x :: rest ∧ x ≠ 43 ∨ input = (d :: ds) ++ 69 :: x :: rest)
+    (hasc : ∀ y ∈ input, y < 128) (hcand : Ecal.Lex.numberCandidate (Ecal.Lex.lowerGo (d :: ds)) = true) :
+    (Ecal.Lex.lex input).toList.head? =
+      some (Ecal.Lex.Tok.mk Ecal.Lex.tNUMBER 0 (Ecal.Lex.lowerGo (d :: ds)) false false 0 1 1) := by
+  have hb : Ecal.Lex.blockLen input = (d :: ds).length := by
+    rcases hin with ⟨h, hx⟩ | h
+    · rw [h]; exact Ecal.Lex.blockLen_exponent_without_plus _ hds x rest hx
+    · rw [h]; exact Ecal.Lex.blockLen_upper_exponent _ hds (x :: rest)
+  have ht : input.take (Ecal.Lex.blockLen input) = d :: ds := by
+    rw [hb]
+    rcases hin with ⟨h, _⟩ | h <;> rw [h] <;> simp
+  have hhead : ∃ tl, input = d :: tl := by
+    rcases hin with ⟨h, _⟩ | h <;> exact ⟨_, by rw [h]; rfl⟩
+  obtain ⟨tl, htl⟩ := hhead
+  have := first_number_token_of_source input d tl htl (hds d (by simp)) hasc (by rw [ht]; exact hcand)
+  rw [ht] at this
+  exact this
+
+/-- non-vacuity of `source_exponent_is_split`: the source `1e5` -/
+example : (Ecal.Lex.lex [49, 101, 53]).toList.head? = some (Ecal.Lex.Tok.mk Ecal.Lex.tNUMBER 0 [49] false false 0 1 1) :=
+  source_exponent_is_split 49 [] 53 [] [49, 101, 53] (by intro d hd; simp at hd; subst hd; decide)
+    (Or.inl ⟨rfl, by decide⟩) (by intro y hy; simp at hy; omega) (by decide +kernel)
+
+/-- non-vacuity: the hypotheses of `exponent_is_split` hold for the source `1e5` in the start state, and
+    for `1E+5`; `1e+5` is kept; `1 -2` ends after `1` -/
+example : (Ecal.Lex.lexWord ({ inp := #[49, 101, 53] } : Ecal.Lex.L)).1.toks.toList.map (fun t => (t.id, t.val))
+    = [(6, [49])] := by decide +kernel
+example : Ecal.Lex.rem ({ inp := #[49, 101, 53] } : Ecal.Lex.L) = [49] ++ 101 :: 53 :: [] ∧ Ecal.Lex.allDig [49] ∧
+    Ecal.Lex.numberCandidate (Ecal.Lex.lowerGo [49]) = true := by
+  refine ⟨by decide +kernel, ?_, by decide +kernel⟩
+  intro d hd; simp at hd; subst hd; decide
+example : (Ecal.Lex.lexNumberBlock ({ inp := #[49, 69, 43, 53] } : Ecal.Lex.L)).pos = 1 ∧
+    (Ecal.Lex.lexNumberBlock ({ inp := #[49, 101, 43, 53] } : Ecal.Lex.L)).pos = 4 ∧
+    (Ecal.Lex.lexNumberBlock ({ inp := #[49, 32, 45, 50] } : Ecal.Lex.L)).pos = 1 := by decide +kernel
+
 /-- kinds and texts of the tokens of a source (for the instances below) -/
 def lexKinds (src : String) : List (Nat × List Nat) :=
   (Ecal.Lex.lex (Ecal.Lex.str src)).toList.map fun t => (t.id, t.val)
 
 /-! ### number-literal splitting: instances (tests of the lexer model the driver runs). Proved in
-    general above: a NUMBER token's text starts with a digit and is accepted by ParseFloat. NOT proved
-    in general: where `lexNumberBlock` ends the block (`e` belongs to it only before `+digit`) — that
-    needs an invariant of its loop over the consumed runes -/
+    general above: a NUMBER token's text starts with a digit and is accepted by ParseFloat. Proved in general
+    above as well (ASCII input): where `lexNumberBlock` ends the block, and the split of `1e5` / `1E+5`.
+    Proved for the complete run of `lex`: the FIRST token of such a source. NOT proved in general:
+    the tokens after it (that `e5` then lexes as an identifier) — the instances below show it -/
 
 /-- `1 -2` : number, minus, number -/
 example : lexKinds "1 -2" = [(6, [49]), (34, [45]), (6, [50]), (1, [])] := by decide +kernel
